@@ -241,6 +241,11 @@ func c18StartupRun(c string) string {
 	if items == nil && m["it"] != "-" {
 		return "bad-case"
 	}
+	for _, k := range c18List(m["ups"]) {
+		if c18UpstreamCrashes(k) {
+			return "panic"
+		}
+	}
 	base := c18Baseline()
 	b := c18Build(items, c18List(m["srv"]), c18List(m["ups"]), atoi(m["how"]), nil)
 	defer b.cleanup()
